@@ -176,7 +176,9 @@ def _work(units):
 
             st = {}
             with xsched.Instrument("line", ["pyab_experiment.utils.stats"]):
-                vs = xsched.explore(make, chk, u[1], stats=st)
+                # every schedule in a forked child: state the helper may keep at module level (a cache) must not leak from one
+                # execution into the next, or the same schedule would not replay
+                vs = xsched.explore(make, chk, u[1], stats=st, isolate=True)
             n_eval += st.get("schedules", 0)
             outs.add(("schedules", st.get("schedules", 0)))
             for v in vs:
